@@ -13,6 +13,7 @@ from .engine_base import Obligation
 
 Z3_TIMEOUT_MS = int(os.environ.get("PYVC_Z3_MS", "10000"))
 FALLBACK_S = int(os.environ.get("PYVC_FALLBACK_S", "20"))
+CONFIRM_S = int(os.environ.get("PYVC_CONFIRM_S", "6"))
 
 
 def _run_cli(cmd: list[str], smt2: str, timeout: int) -> str:
@@ -29,12 +30,13 @@ def _run_cli(cmd: list[str], smt2: str, timeout: int) -> str:
         os.unlink(path)
 
 
-def fallback(smt2: str) -> tuple[str, str]:
+def fallback(smt2: str, limit_s: int | None = None) -> tuple[str, str]:
     """Returns (verdict, backend) with verdict in sat/unsat/unknown."""
-    r = _run_cli(["/usr/bin/cvc5", "--strings-exp", f"--tlimit={FALLBACK_S * 1000}"], smt2, FALLBACK_S)
+    lim = FALLBACK_S if limit_s is None else limit_s
+    r = _run_cli(["/usr/bin/cvc5", "--strings-exp", f"--tlimit={lim * 1000}"], smt2, lim)
     if r in ("sat", "unsat"):
         return r, "cvc5-1.0.3"
-    r = _run_cli(["/usr/bin/z3", f"-T:{FALLBACK_S}"], smt2, FALLBACK_S)
+    r = _run_cli(["/usr/bin/z3", f"-T:{lim}"], smt2, lim)
     if r in ("sat", "unsat"):
         return r, "z3-4.8.12"
     return "unknown", ""
@@ -353,7 +355,7 @@ def discharge(ob: Obligation, want_model: bool = True, second_opinion: bool = Fa
     if r == z3.unsat:
         ob.status = "proved"
         if second_opinion:
-            v, be = fallback(s.to_smt2())
+            v, be = fallback(s.to_smt2(), limit_s=CONFIRM_S)      # confirmation of a proof: a short budget is enough to hear a `sat`
             ob.detail = f"second opinion {be or 'none'}: {v}"
             if v == "sat":
                 ob.status = "unknown"
